@@ -192,6 +192,32 @@ func intrinsicTable() map[string]func(in *Interp, fr *frame, args []Value) Value
 		i := argInt(args[0])
 		return Resize(in.path.imgLog[i], wordBits, false)
 	}
+	m["verifImgDistinctWritten"] = func(in *Interp, fr *frame, args []Value) Value {
+		return BV(wordBits, uint64(len(in.path.imgUniq)))
+	}
+	m["verifImgDistinctAddr"] = func(in *Interp, fr *frame, args []Value) Value {
+		return Resize(in.path.imgUniq[argInt(args[0])], wordBits, false)
+	}
+	m["verifApart"] = func(in *Interp, fr *frame, args []Value) Value {
+		a, b := args[0].(*Term), args[1].(*Term)
+		n := uint64(argInt(args[2]))
+		nn := BV(a.w, n)
+		// both regions lie below 2^47, so a+n and b+n do not wrap
+		c := BAnd(BAnd(Ult(a, BV(a.w, 1<<47)), Ult(b, BV(b.w, 1<<47))), BOr(Uge(b, Add(a, nn)), Uge(a, Add(b, nn))))
+		in.intrinsics["verifAssume"](in, fr, []Value{c})
+		if farFacts == nil {
+			farFacts = map[[2]*Term]uint64{}
+		}
+		farFacts[[2]*Term{a, b}] = n
+		farFacts[[2]*Term{b, a}] = n
+		return nil
+	}
+	m["verifOr"] = func(in *Interp, fr *frame, args []Value) Value { return BOr(args[0].(*Term), args[1].(*Term)) }
+	m["verifAnd"] = func(in *Interp, fr *frame, args []Value) Value { return BAnd(args[0].(*Term), args[1].(*Term)) }
+	m["verifImplies"] = func(in *Interp, fr *frame, args []Value) Value { return BImp(args[0].(*Term), args[1].(*Term)) }
+	m["verifIte"] = func(in *Interp, fr *frame, args []Value) Value {
+		return Ite(args[0].(*Term), args[1].(*Term), args[2].(*Term))
+	}
 	m["verifSliceAddr"] = func(in *Interp, fr *frame, args []Value) Value {
 		s := args[0].(Slice)
 		if !s.img {
